@@ -224,6 +224,9 @@ def install(ctx, mode):
     @monitor.outer_only
     def pre_transform(args, kwargs):
         c = args[1] if len(args) > 1 else kwargs['circuit']
+        names = describe_transformer(args[0])
+        if not names or any(nm not in LEAVES for nm in names):
+            return None  # not one of the library's passes (test doubles are applied to arbitrary objects); post skips too
         return pre_snapshot(c)
 
     @monitor.outer_only
@@ -246,7 +249,10 @@ def install(ctx, mode):
 
     @monitor.outer_only
     def pre_apply(args, kwargs):
+        from cirbo.core.circuit import Circuit
         c = args[0] if args else kwargs['circuit']
+        if not isinstance(c, Circuit):
+            return None
         return pre_snapshot(c)
 
     @monitor.outer_only
@@ -258,7 +264,7 @@ def install(ctx, mode):
         names = []
         for t in lst:
             names += describe_transformer(t)
-        if any(nm not in LEAVES for nm in names):
+        if st is None or any(nm not in LEAVES for nm in names):
             ctx.mon('apply_transformers', 'skipped_foreign_transformer')
             return
         ctx.mon('apply_transformers')
